@@ -460,6 +460,7 @@ func (db *DB) Unscoped() (tx *DB) {
 func (db *DB) Raw(sql string, values ...interface{}) (tx *DB) {
 	tx = db.getInstance()
 	tx.Statement.SQL = strings.Builder{}
+	tx.Statement.Vars = nil
 
 	if strings.Contains(sql, "@") {
 		clause.NamedExpr{SQL: sql, Vars: values}.Build(tx.Statement)
